@@ -700,7 +700,12 @@ class BaseRequest(MutableMapping[str | RequestKey[Any], Any], HeadersMixin):
                 self._payload.set_read_chunk_size(self._client_max_size)
             body = bytearray()
             while True:
-                chunk = await self._payload.readany()
+                try:
+                    chunk = await self._payload.readany()
+                except BaseException:
+                    # Don't lose what was already taken out of the payload.
+                    self._payload._unread_data(bytes(body))
+                    raise
                 body.extend(chunk)
                 if self._client_max_size:
                     body_size = len(body)
